@@ -172,3 +172,26 @@ Qed.
 
 Lemma signed_view_high_bit_refuted : exists v, v < 2 ^ 8 /\ signed_view 1 v <> Z.of_N v.
 Proof. exists 128. split; [reflexivity|]. vm_compute. discriminate. Qed.
+
+(* ... also when the run holds MORE values than the page has (a last group padded to 8 values, as the format asks for and as
+   other writers - or a file merely naming fastparquet - lay it out): the view keeps the first n *)
+Lemma fixed_enc_app k a b : fixed_enc k (a ++ b) = fixed_enc k a ++ fixed_enc k b.
+Proof. unfold fixed_enc. rewrite map_app, concat_app. reflexivity. Qed.
+
+Theorem fast_leaf_prefix k h vals extra :
+  (k = 1 \/ k = 2 \/ k = 4)%nat -> h < 2 ^ 64 ->
+  Forall (fun v => v < 256 ^ N.of_nat k) vals ->
+  fast_read (8 * N.of_nat k) (uleb_enc h ++ fixed_enc k (vals ++ extra)) (N.of_nat (length vals)) = Some vals.
+Proof.
+  intros Hk Hh Hvs. unfold fast_read.
+  rewrite varint_reads_spec_encoding by (try exact Hh; apply fixed_enc_ok).
+  rewrite dropN_ok, Nat2N.id, skipn_app, Nat.sub_diag, skipn_all. cbn [skipn app].
+  replace (8 * N.of_nat k / 8) with (N.of_nat k) by (rewrite N.mul_comm, N.div_mul; lia).
+  destruct (N.of_nat k =? 0) eqn:E0; [apply N.eqb_eq in E0; lia|].
+  rewrite lenN_ok, fixed_enc_length, app_length.
+  replace (N.of_nat (k * (length vals + length extra)) / N.of_nat k) with (N.of_nat (length vals + length extra))
+    by (rewrite Nat2N.inj_mul, N.mul_comm, N.div_mul; lia).
+  replace (N.min (N.of_nat (length vals)) (N.of_nat (length vals + length extra))) with (N.of_nat (length vals)) by lia.
+  rewrite !Nat2N.id, fixed_enc_app.
+  rewrite (fixed_roundtrip k vals (fixed_enc k extra) Hvs). reflexivity.
+Qed.
